@@ -47,6 +47,9 @@ def make_script(expr, pos, context):
         s = ("stmt", "G", [N("1"), expr, lang.S("t")], [], [N("0")], "none")
     elif pos == "kw":
         s = ("stmt", "G", [N("0.5")], [("k", expr), ("j", N("7"))], [N("0"), N("1")], "sq")
+    elif pos == "params":
+        # template parameters before, between and after the register arguments of one statement, in both containers
+        s = ("stmt", "G", [lang.P("alpha"), expr, B("*", N("2"), lang.P("beta")), B("-", Q(7), N("1"))], [("phi", B("+", lang.P("alpha"), N("1"))), ("select", expr), ("z", lang.P("gamma")), ("w", B("/", Q(5), N("4")))], [N("0")], "none")
     elif pos == "two-sets":
         # several register arguments with DIFFERENT register sets in one statement: each transform lists its own
         other = B("/", Q(7), B("+", Q(5), N("4")))
@@ -123,8 +126,10 @@ def build(ctx):
         if light:
             perms = perms[:3]
         for rs in perms:
-            for pos in ("pos", "kw") + (("both",) if (not ctx.quick or k <= 2) and not light else ()) + (("two-sets",) if (k <= 2 and not light and (not ctx.quick or rs == tuple(sorted(rs, key=str)))) else ()):
+            for pos in ("pos", "kw") + (("both",) if (not ctx.quick or k <= 2) and not light else ()) + (("two-sets",) if (k <= 2 and not light and (not ctx.quick or rs == tuple(sorted(rs, key=str)))) else ()) + (("params",) if (not light and (not ctx.quick or rs == tuple(sorted(rs, key=str)))) else ()):
                 for context in ("plain", "after-measure", "after-select", "loop") if not light else ("plain", "loop"):
+                    if pos == "params" and context != "plain":
+                        continue
                     if context == "after-measure" and pos != "pos":
                         continue
                     if context == "after-select" and (pos != "kw" or (ctx.quick and rs != tuple(sorted(rs, key=str)))):
